@@ -35,15 +35,15 @@ Fixpoint seval_body (look : N -> outcome) (b : sbody) : outcome :=
 
 (* reading field [k] of the record [R]; the fuel bounds the depth of the chain of field references *)
 Fixpoint sfield (fuel : nat) (R : srec) (k : N) : outcome :=
-  match fuel with
-  | O => OutOfFuel
-  | S n =>
-      match slookup k R with
-      | None => Err FieldMissing
-      | Some f =>
-          match sval f with
-          | None => Err MissingDef
-          | Some b => seval_body (fun x => var_out (sfield n R x)) b
+  match slookup k R with
+  | None => Err FieldMissing
+  | Some f =>
+      match sval f with
+      | None => Err MissingDef
+      | Some b =>
+          match fuel with
+          | O => OutOfFuel
+          | S n => seval_body (fun x => var_out (sfield n R x)) b
           end
       end
   end.
@@ -77,10 +77,11 @@ Definition smerge (R1 R2 : srec) : srec :=
                      | None => []
                      end) ks.
 
-(* ---- the S-record a literal denotes: every body is scoped by the names of its literal *)
+(* ---- the S-record a literal denotes: every body is scoped by the statically named fields of
+   its literal (a dynamically named field is a field like any other, but no body can name it) *)
 Definition sden_lit (l : literal) : srec :=
   map (fun kd => (fst kd, {| sprio := fprio (snd kd);
-                             sval := option_map (SLeaf (lit_names l)) (fbody (snd kd)) |})) l.
+                             sval := option_map (SLeaf (lit_scope l)) (fbody (snd kd)) |})) l.
 
 (* ---- the S-records an override history denotes, one per step ([None]: the step refers to a
    step that does not exist) *)
